@@ -15,6 +15,7 @@ import (
 	"github.com/ctessum/geom"
 
 	"verif/mc/fault"
+	"verif/mc/geomgen"
 	"verif/mc/report"
 )
 
@@ -492,6 +493,19 @@ func execute(c Case) (string, string, bool) {
 			}
 		}
 		wantSimple := c.Kind != "grid-line" && len(li) >= 2 && simple(li)
+		if c.Idx%8 == 0 {
+			// memory layout: the input as a slice with spare capacity in front of
+			// other data, and a second call on the same value
+			if sym, det := geomgen.LayoutCheck(in, func(x geom.Geom) string {
+				var o string
+				if p := try(func() { o = fmt.Sprint(x.(geom.Simplifier).Simplify(c.Tol)) }); p != "" {
+					return "panic: " + p
+				}
+				return o
+			}); sym != "" {
+				return "LineString|" + sym + "|" + lenClass(len(li)), fmt.Sprintf("input %v tol %g: %s", in, c.Tol, det), false
+			}
+		}
 		sym, det := judgeCurve(in, out, c.Tol, wantSimple, li, sc)
 		if sym != "" {
 			return "LineString|" + sym + "|" + lenClass(len(li)), fmt.Sprintf("input %v tol %g output %s", in, c.Tol, det), len(out) < len(in)
@@ -514,6 +528,15 @@ func execute(c Case) (string, string, bool) {
 			out, ok := res.(geom.Polygon)
 			if !ok || len(out) != len(in) {
 				return "Polygon|wrong-shape", fmt.Sprintf("%v", res), false
+			}
+			if sym, det := geomgen.LayoutCheck(in, func(x geom.Geom) string {
+				var o string
+				if p := try(func() { o = fmt.Sprint(x.(geom.Simplifier).Simplify(c.Tol)) }); p != "" {
+					return "panic: " + p
+				}
+				return o
+			}); sym != "" {
+				return "Polygon|" + sym, fmt.Sprintf("%v tol %g: %s", in, c.Tol, det), false
 			}
 			ref := mk(c.Seq[0])
 			dropped := false
@@ -540,6 +563,15 @@ func execute(c Case) (string, string, bool) {
 		out, ok := res.(geom.MultiPolygon)
 		if !ok || len(out) != 2 {
 			return "MultiPolygon|wrong-shape", fmt.Sprintf("%v", res), false
+		}
+		if sym, det := geomgen.LayoutCheck(in, func(x geom.Geom) string {
+			var o string
+			if p := try(func() { o = fmt.Sprint(x.(geom.Simplifier).Simplify(c.Tol)) }); p != "" {
+				return "panic: " + p
+			}
+			return o
+		}); sym != "" {
+			return "MultiPolygon|" + sym, fmt.Sprintf("%v tol %g: %s", in, c.Tol, det), false
 		}
 		for m := 0; m < 2; m++ {
 			want := mk(c.Seq[m]).Simplify(c.Tol).(geom.Polygon)
@@ -640,7 +672,7 @@ func main() {
 		}
 	}
 	r := report.New("C13", tier, "model_checking")
-	r.Rule = "E1 (isolated workers, 2 GiB address-space limit, 60 s silence horizon): every vertex sequence of length 0..6 (thorough: over 16 points) over a 12-point set with no three points collinear (verified exactly) x tolerances {0,40,100,150,300,1e9}; every sequence of length 3..5 over the same point set scaled by 1e-3 and by 1e-5 x 3 scaled tolerances each; every sequence of length 3..6 over an 8-point sliver set (flat triangles, 1..5 degree crossings; no three collinear) at the exact scales 1, 2^-8, 2^-16 x 4 tolerances; every injective sequence of length 3..8 over an 8-point witness set (two-step back-offs) x 5 tolerances and of length 7 (thorough 8) over the main set x 3 tolerances; every sequence of length <= 4 over the plain 4x4 integer grid x 4 tolerances (termination / subsequence / tolerance clauses only); 7 polygons (holes, unclosed, degenerate rings) x 6 tolerances and all ordered pairs as MultiPolygon; two-member MultiLineStrings. Oracle: terminates; output is an order-preserving subsequence keeping first and last vertex; an embedding exists in which every dropped vertex is within tol of its replacing segment; exactly simple input => exactly simple output; input unchanged; multi members equal the member simplified alone. Non-trivial = calls that drop at least one vertex."
+	r.Rule = "E1 (isolated workers, 2 GiB address-space limit, 60 s silence horizon): every vertex sequence of length 0..6 (thorough: over 16 points) over a 12-point set with no three points collinear (verified exactly) x tolerances {0,40,100,150,300,1e9}; every sequence of length 3..5 over the same point set scaled by 1e-3 and by 1e-5 x 3 scaled tolerances each; every sequence of length 3..6 over an 8-point sliver set (flat triangles, 1..5 degree crossings; no three collinear) at the exact scales 1, 2^-8, 2^-16 x 4 tolerances; every injective sequence of length 3..8 over an 8-point witness set (two-step back-offs) x 5 tolerances and of length 7 (thorough 8) over the main set x 3 tolerances; every sequence of length <= 4 over the plain 4x4 integer grid x 4 tolerances (termination / subsequence / tolerance clauses only); 7 polygons (holes, unclosed, degenerate rings) x 6 tolerances and all ordered pairs as MultiPolygon; two-member MultiLineStrings. Oracle (every polygon / multi case and every 8th line case also with the vertex slices cut from one flat buffer and called twice: same output, buffer not written): terminates; output is an order-preserving subsequence keeping first and last vertex; an embedding exists in which every dropped vertex is within tol of its replacing segment; exactly simple input => exactly simple output; input unchanged; multi members equal the member simplified alone. Non-trivial = calls that drop at least one vertex."
 	sum := fault.Sweep(r, 16, 2<<20, 60*time.Second, func(idx int64) (string, interface{}) {
 		var sig string
 		var det interface{}
